@@ -33,6 +33,7 @@
 (*    waitForBlockFn(announcementStartBlock), Announce LoopStartAnnounce   *)
 (*    ready members, performMembersSelection           LoopCollectReady    *)
 (*    signingAttemptFn, signalDone               AttemptOk / AttemptFails  *)
+(*                              (attempt context ended)    AttemptTimeout  *)
 (*    waitUntilAllDone                  DoneCheckOk / DoneCheckTimeout     *)
 (*    post-signing step (broadcast / inactivity claim)      PostSigning    *)
 (*  wallet.go dispatch: deferred delete(wd.actions, key)    Release        *)
@@ -72,7 +73,14 @@
 (* loss (Loss), nodes that miss a window (Offline), chain calls of         *)
 (* execute() that take arbitrarily long (Slow).                            *)
 (*                                                                         *)
-(* One seat per operator: member m of wallet w holds seat m.               *)
+(* One seat per operator: member m of wallet w holds seat m.  One message  *)
+(* per signing (batches of messages: module Deadlines).                    *)
+(*                                                                         *)
+(* Adversary / fault grains (constants): LeaderFaults on FaultyWallets      *)
+(* ("silent": the leader's routine fails, "disallowed": its generator does  *)
+(* not respect the checklist, "equivocate": a second, different proposal,   *)
+(* "impersonate": another member raises a proposal), SeedFailures, and the  *)
+(* hazard grains described before the liveness section.                     *)
 (***************************************************************************)
 EXTENDS Integers, Sequences, FiniteSets, TLC
 
